@@ -141,8 +141,8 @@ def structure(ctx):
     for b in range(nbase):
         rng = ctx.rng("c06s", b)
         migrate = bool(b % 2)
-        reply = [None, "legacy", "table"][b % 3]
-        generic = (b % 4 == 3)
+        reply = [None, "legacy", "table", "feature-only"][b % 4]
+        generic = (b % 5 == 3)
         base = spec.gen_ep_config_program(rng, f"s{b:02d}", (), migrate, reply, True)
         if generic:
             base["generics"] = [{"name": "T1", "concrete": "u32"}, {"name": "ParamT", "concrete": "String"}]
@@ -175,7 +175,7 @@ def structure(ctx):
             ctx.violate("config-rejected", f"entry_points expansion of configuration {cfg} is {r['status']} {r.get('panic','')[:80]}", {"config": cfg, "result": {k: v for k, v in r.items() if k != 'view'}})
             continue
         fns = {it["sig"]["name"]: it["text"] for it in r["view"] if it["k"] == "fn" and it["path"] == "::entry_points"}
-        want = {"instantiate", "execute", "query", "sudo"} | ({"migrate"} if migrate else set()) | ({"reply"} if reply else set())
+        want = {"instantiate", "execute", "query", "sudo"} | ({"migrate"} if migrate else set()) | ({"reply"} if reply in ("legacy", "table") else set())
         want -= {EP_OF[k] for k in ov}
         d = {"config": cfg, "emitted": sorted(fns), "expected": sorted(want)}
         if set(fns) != want:
